@@ -5,6 +5,8 @@ oracle."""
 from __future__ import annotations
 
 import copy
+import os
+import shutil
 
 from ..chamsim import import_chameleon
 from ..core import Choices, EventLog, canonical, short_hash
@@ -76,14 +78,51 @@ class TalCheck(CheckBase):
         self.quiesce()
         log = EventLog()
         tmpl = case["tmpl"]
-        src, occ = serialise(tmpl["tree"], pretty=case.get("pretty", False))
+        tmpdir = None
+        if "files" in tmpl:
+            # several files in a scratch directory; main.pt is rendered
+            import tempfile
+            from ..fs import SCRATCH_BASE
+            tmpdir = tempfile.mkdtemp(prefix="verif-%d-tal-" % os.getpid(),
+                                      dir=SCRATCH_BASE)
+            occ, parts = [], []
+            for name in sorted(tmpl["files"]):
+                path = os.path.join(tmpdir, name)
+                s_i, o_i = serialise(tmpl["files"][name],
+                                     pretty=case.get("pretty", False),
+                                     fname=path)
+                for o in o_i:
+                    if o["parent"] is not None:
+                        o["parent"] += len(occ)
+                occ += o_i
+                parts.append("#### %s\n%s" % (name, s_i))
+                with open(path, "w", encoding="utf-8") as f:
+                    f.write(s_i)
+            src = "\n".join(parts)
+        else:
+            src, occ = serialise(tmpl["tree"],
+                                 pretty=case.get("pretty", False))
         log.add("src", short_hash(src))
         try:
-            template = self.compile(src)
+            if tmpdir is not None:
+                template = self.zt.PageTemplateFile(
+                    os.path.join(tmpdir, "main.pt"))
+                template.cook_check()
+            else:
+                template = self.compile(src)
         except Exception as e:      # noqa: BLE001 - generator/harness problem
+            if tmpdir is not None:
+                shutil.rmtree(tmpdir, ignore_errors=True)
             return {"harness": "generated template does not compile: %s: %s\n%s"
                     % (type(e).__name__, str(e)[:300], src),
                     "violations": [], "digest": log.digest(), "events": 0}
+        try:
+            return self._run_plans(case, tmpl, src, occ, template, log)
+        finally:
+            if tmpdir is not None:
+                shutil.rmtree(tmpdir, ignore_errors=True)
+
+    def _run_plans(self, case, tmpl, src, occ, template, log) -> dict:
         plans = self.make_plans(case, tmpl, template)
         violations: list[dict] = []
         nontrivial = []
